@@ -220,10 +220,10 @@ def run(ctx):
     msgs, spans = regen(ctx, ["config_tables", "config_sites"])
     for m in msgs:
         ctx.proof_failures.append(("Gen/Config*.v", "translator", m))
-    proved = (not msgs) and prove(ctx, "C20")
+    proved = (not msgs) and prove(ctx, "C20", extra_targets=["Model/ConfigCheck.vo"])
     okf, _, _ = coq_build(ctx, ["Findings/C20_old_idler.vo"])
     if not okf:
-        ctx.note("finding C20/old-idler: Findings/C20_old_idler.v no longer compiles (the model or the code changed)")
+        ctx.note("historical record Findings/C20_old_idler.v does not compile (no check depends on it)")
     n, nspec = (60, 14) if ctx.tier == "quick" else (2400, 400)
     if getattr(ctx, "replay", None):
         rp = json.load(open(ctx.replay if os.path.isabs(ctx.replay) else os.path.join(VERIF, ctx.replay)))
@@ -237,11 +237,7 @@ def run(ctx):
         if o.get("kind") == "opt" and o["first"]["class"] == "ok":
             ctx.sample({"config": o["config"], "idempotent": o.get("second", {}).get("same"),
                         "reference_jsi": f64_of_hex(o["spectrum"]["ref_jsi"]) if o.get("spectrum", {}).get("class") == "ok" else None}, limit=5)
-    nbad = 0
-    if os.path.exists(os.path.join(COQ, "Model", "ConfigCheck.vo")):
-        nbad = correspondence(ctx, obs, units)
-    else:
-        ctx.note("correspondence cases skipped: the model did not compile")
+    nbad = correspondence(ctx, obs, units)
     oracle(ctx, obs)
     if (not proved or nbad) and not any(v["found_input"] for v in ctx.violations):
         ctx.log("S5 deep search for a failing input")
